@@ -159,9 +159,9 @@ PROPS = {
         "level_text": ("Theorems (Props/C01.v, axiom-free), protocol level: the initial contents mirror the database at the request; every notification keeps the cache equal "
                        "to the monitored part (both encodings); hence after any history following the request on any state the cache is exactly the monitored part "
                        "(induction over the history, resting on C07's exact-difference theorem); a notification deferred until the initial contents are applied gives "
-                       "the same cache. Tied to the code end to end: real server, real client with 1..2 monitors on disjoint tables (all three methods, column subsets, "
+                       "the same cache. Tied to the code end to end: real server, real client with 1..3 monitors on disjoint tables (all three methods, one connection-wide method in half of the cases, column subsets, "
                        "established at random points), a writer peer and the client itself committing; after every transaction Cache().Table(t).Rows() is compared with the "
-                       "model's monitored part and with Database.List; 35% of monitor set-ups are paused at monitor.replyReceived while the next transaction is notified. "
+                       "model's monitored part and with Database.List; 40% of monitor set-ups (any method) are paused at monitor.replyReceived while the next transaction is notified. "
                        "Partial: goroutine interleavings other than the forced window are not explored; additional monitors on tables already monitored are excluded."),
         "level_note": ("Trusted: Coq kernel + vm_compute, std++; Go harness; rpc2 in blocking mode delivering requests in order; the 'verif' pause hook. Quiescence is a fact of "
                        "the protocol (the server calls each monitor synchronously before answering transact), not a sleep."),
@@ -169,5 +169,42 @@ PROPS = {
                  "immediately; monitors as above. Non-trivial: after the monitor is established the history changes >= 1 monitored row and deletes >= 1."),
         "tags": {1: "operation results", 2: "database contents", 6: "client cache vs monitored part of the database"},
         "assumptions": ["two monitors of one client watch disjoint tables", "every kind of change is selected (the client API always selects all)"],
+    },
+    "C19": {
+        "level_text": ("Theorems (Props/C19.v, axiom-free): the hand-written decoders of ovsdb/{notation,uuid,set,map,row,condition,mutation,schema}.go are transcribed "
+                       "statement by statement with every Go slice index and unchecked type assertion as a primitive that yields Panic when out of range / of the wrong dynamic "
+                       "type; for every generic JSON tree and every recursion depth no decoder reaches Panic (a value or an error); the row operations of the engine model "
+                       "answer every argument with a row or an error and division/modulo by zero is a domain error; the pinned decoders are refuted by witnesses. Tied to the "
+                       "code by decoding structurally corrupted encodings of every wire type with the real UnmarshalJSON (outcome class and decoded value compared with the "
+                       "model), garbled byte strings, corrupted transactions executed in process (panics recovered) and sent as raw JSON-RPC to a real server followed by echo. "
+                       "Partial: encoding/json's scanner and struct-tag decoding, and the engine code below the modelled row operations, are covered by the driver only."),
+        "level_note": ("Trusted: Coq kernel + vm_compute, std++; Go harness; encoding/json. A panic observed in the implementation is reported with the input as replay; "
+                       "the server part runs in a child process because a panic in a connection goroutine kills the process."),
+        "rule": ("part A: valid encodings of set/map/uuid/row/condition/mutation/base type/column type/column (modelled) and operation(s)/table updates (both formats)/"
+                 "monitor_cond_since reply/schema/result/monitor request (implementation only), with 0..3 structural corruptions (drop/insert/replace/swap elements, drop or "
+                 "null members, junk such as [], [\"uuid\"], [\"set\",1], [\"map\",[[x]]], unhashable map keys, wrong kinds), plus garbled bytes; part B: generated transactions "
+                 "(all operation kinds) corrupted the same way and ~900 hand-picked degenerate operations (every mutator with 0, 0.5, null, wrong kinds on every column "
+                 "kind; every operation kind with missing members, unknown tables/columns, null values), each followed periodically by a valid select; part C: the same "
+                 "over JSON-RPC + echo. Non-trivial: the input was corrupted."),
+        "tags": {1: "outcome class (value / error / panic) differs from the model", 2: "decoded value differs from the model"},
+        "assumptions": ["inputs are JSON texts (anything else is rejected by encoding/json before the library's code runs)"],
+    },
+    "C12": {
+        "level_text": ("Theorems (Props/C12.v, axiom-free): decode(encode v) = v for every well-formed value in notation normal form (atoms, uuids and named uuids, sets of "
+                       "any size, maps from atoms to atoms or sets with pairwise different keys), rows, conditions (all 8 functions) and mutations (all 7 mutators) of such "
+                       "values, and for base types with every constraint member, column types (key, value, min, max, unlimited) and columns (ephemeral, mutable, inferred "
+                       "extended type); the pinned base-type codec is refuted (minLength lost). Tied to the code by comparing the implementation's encoding with the model's "
+                       "and the implementation's decoding of it with the model's on generated values. Partial: operations (10 kinds with optional members), results, errors, "
+                       "table updates in both formats, monitor requests/replies and whole schemas are assembled by encoding/json's struct-tag codec, which is not modelled: for "
+                       "them only the direct round-trip oracle on the implementation decides (select keeps its empty where, error <-> result mapping, isRoot, indexes)."),
+        "level_note": ("Trusted: Coq kernel + vm_compute, std++; Go harness incl. its normal form for comparing Go values (numbers as float64, nil = empty, a singleton set is "
+                       "its element, as RFC 7047 5.1 writes it). Byte-level JSON syntax is encoding/json's."),
+        "rule": ("60%: values/sets/maps/uuids/rows/conditions/mutations over all atom types (strings include \"set\", \"map\", \"uuid\", the empty string and non-ASCII text; named "
+                 "and real uuids; sets of 0..4; maps of 0..3 pairs incl. sets of uuids as values); 30%: base types / column types / columns generated as JSON with every "
+                 "optional member present or absent; then as many implementation-only round trips of operations, results, updates, monitor requests and replies, whole "
+                 "schemas (1..3 tables, indexes, isRoot) and the 12 error kinds. Non-trivial: the value is not a bare atom."),
+        "tags": {1: "the implementation's encoding differs from the model's", 2: "decoding the implementation's encoding: model and implementation differ",
+                 3: "the decoded value differs from the original"},
+        "assumptions": ["numbers are float64 values as encoding/json produces them; integers are within +-2^53"],
     },
 }
